@@ -343,6 +343,17 @@ const caseTimeout = 180 * time.Second
 // runSpan executes a span in a child, restarting after the culprit when the child dies.
 func (st *runState) runSpan(ps *pass, sp span, w int) {
 	for sp.from < sp.to {
+		// three hangs are a verdict (each costs minutes of waiting): the remaining spans of a run
+		// that already reports `hang` are not executed
+		st.mu.Lock()
+		hung := st.hangs
+		st.mu.Unlock()
+		if hung >= 3 {
+			st.mu.Lock()
+			st.agg.Counters["spans-not-executed-after-three-hangs"]++
+			st.mu.Unlock()
+			return
+		}
 		tag := fmt.Sprintf("%s-%d-%d", ps.name, sp.from, sp.to)
 		res, died, idx, why := st.child(ps, sp, tag, caseTimeout)
 		if res != nil {
